@@ -579,6 +579,12 @@ func c02Run(w *verifrt.World, tier Tier) *RunResult {
 		// ---- what the call returns / the transaction records
 		cur := itOf(tx.Interruption())
 		if adopt {
+			if m.interruption == nil && cur != nil && m.mode == "Off" {
+				// whatever the rest of the phase evaluates after a rule switched the
+				// engine off: an engine that is Off interrupts nothing
+				res.fail("C02", "off-interrupts", fpx(), "call %d (%s): a rule switched the engine Off and a later rule of the same phase interrupted the transaction: %v (returned %v)%s", ci, c.Op, cur, itOf(ret), ctx())
+				return res
+			}
 			if m.interruption == nil {
 				m.interruption = cur
 			}
